@@ -485,6 +485,11 @@ func c03Judge(src []byte) (sig, what string) {
 		}
 		return "comment-order-differs", "comment texts are conserved but their order is neither the input's nor gofmt's"
 	}
+	// the commas as well: gofmt(input) and the output must agree on every comma (a trailing comma comes and
+	// goes with the line breaks go/printer sees, so a difference means a line break or a position is off)
+	if a, b := commaStream(want), commaStream(out.Bytes()); a != b {
+		return "commas-differ", "the output and gofmt(input) have commas at different places: " + diffAt([]byte(a), []byte(b))
+	}
 	return "", ""
 }
 
@@ -765,4 +770,21 @@ func init() {
 		_, what := c03Judge([]byte(r.Src))
 		return what
 	}
+}
+
+// commaStream renders the token sequence with commas (semicolons left out), one token per blank.
+func commaStream(src []byte) string {
+	its, err := scanItems(src)
+	if err != nil {
+		return ""
+	}
+	var sb strings.Builder
+	for _, it := range its {
+		if it.K == "com" || (it.K == "tok" && it.Text == ";") {
+			continue
+		}
+		sb.WriteString(it.Text)
+		sb.WriteByte(' ')
+	}
+	return sb.String()
 }
